@@ -4,7 +4,7 @@
 //! arithmetic plus Hinnant's civil-from-days (no chrono in the oracle).
 
 use crate::model::{civil_from_millis, civil_of, epoch_millis};
-use crate::runner::{from_case, hash_bytes, no_panic, Check, Ctx, Fail, Report};
+use crate::runner::{from_case, hash_bytes, no_panic, CaseInfo, Check, Ctx, Fail, Report};
 use crate::wire::{self, put16};
 use crate::{ensure, ensure_eq};
 use chrono::{DateTime, Utc};
@@ -155,6 +155,40 @@ fn leap_or_month_boundary(d: u32) -> bool {
 }
 
 pub fn run(ctx: &Ctx, rep: &mut Report) {
+    // the data crate's conversion path (File::scan): day counts that change from one radial to the next
+    {
+        use proptest::prelude::*;
+        let stamp = || {
+            (
+                prop_oneof![3 => 1u16..=65_535, 1 => Just(1u16), 1 => Just(65_535u16), 2 => 19_999u16..=20_001],
+                prop_oneof![2 => 0u32..86_400_000, 1 => Just(0u32), 1 => Just(86_399_999u32), 1 => 86_399_000u32..86_400_000],
+            )
+        };
+        rep.prop(
+            "scan-path",
+            "proptest: volumes of 1..12 radials whose headers carry arbitrary (day count, time) pairs - equal, consecutive across midnight, decreasing, 65535 next to 1 - in one or several records, converted by File::scan; oracle = every radial's collection timestamp is the closed form of its own header; non-trivial = >= 2 different day counts inside the volume",
+            ctx.tier.pick(3_000, 200_000),
+            move || {
+                let seq = prop_oneof![
+                    3 => proptest::collection::vec(stamp(), 1..=12),
+                    2 => (1u16..65_535, 86_390_000u32..86_400_000, 1usize..6).prop_map(|(d, t, k)| {
+                        // crossing midnight after k radials
+                        let mut v: Vec<(u16, u32)> = (0..k).map(|i| (d, t + i as u32)).collect();
+                        v.extend((0..3).map(|i| (d + 1, i as u32 * 500)));
+                        v
+                    }),
+                ];
+                (seq, proptest::collection::vec(any::<u16>(), 0..=2)).prop_map(|(stamps, splits)| ScanPathCase { stamps, splits })
+            },
+            |c: &ScanPathCase| {
+                let mut days: Vec<u16> = c.stamps.iter().map(|s| s.0).collect();
+                days.dedup();
+                CaseInfo::new(days.len() >= 2).class(c.splits.is_empty(), "single-record").class(days.len() >= 2 && c.splits.is_empty(), "date-change-inside-a-record")
+            },
+            check_scan_path,
+        );
+        rep.require_class("scan-path", "date-change-inside-a-record", 50);
+    }
     rep.trust("closed-form epoch arithmetic (d-1)*86_400_000 + t and Hinnant civil_from_days in harness/src/model.rs");
     rep.trust("independent wire encoder harness/src/wire.rs (field offsets of the date/time carriers)");
     rep.assume("chrono's DateTime::timestamp_millis and calendar field getters are used only to read the value the accessor returned");
@@ -392,7 +426,50 @@ pub fn run(ctx: &Ctx, rep: &mut Report) {
     rep.sample("out-of-domain-no-panic", json!(ood[0]));
 }
 
+/// The data crate's path to the same instant: radials with the given (day count, time) pairs, in one volume,
+/// converted by `File::scan`; every radial must carry its own header's instant (dates may change inside a record).
+#[derive(Clone, Debug, serde::Serialize, serde::Deserialize)]
+pub struct ScanPathCase {
+    pub stamps: Vec<(u16, u32)>,
+    pub splits: Vec<u16>,
+}
+
+pub fn check_scan_path(c: &ScanPathCase) -> Check {
+    use crate::props::c01;
+    use crate::wire::*;
+    let template = |date: u16, time: u32| DrdSpec {
+        header: DrdHeaderSpec { radar_id: *b"KTLX", time, date, az_num: 1, az_angle_bits: 1.5f32.to_bits(), compression: 0, spare: 0, radial_length: 0, az_spacing: 1, status: 1, elev_num: 1, cut_sector: 0, elev_angle_bits: 0.5f32.to_bits(), spot: 0, az_index: 0 },
+        vol: Some(VolSpec { id_type: b'R', lrtup: 52, major: 1, minor: 0, lat_bits: 35.0f32.to_bits(), lon_bits: (-97.0f32).to_bits(), site_height: 370, feedhorn: 10, calib_bits: 0, htx_bits: 0, vtx_bits: 0, zdr_bits: 0, phi_bits: 0, vcp: 212, processing: 0, zdr_bias: 0, spare: [0; 6] }),
+        elv: None,
+        rad: None,
+        moments: Default::default(),
+        pointer_order: vec![VOL],
+        physical_order: vec![VOL],
+        gaps: vec![vec![]],
+    };
+    let vc = c01::VolumeCase {
+        header: VolHeaderSpec { tape: *b"AR2V0006.", ext: *b"001", date: 20_000, time: 0, icao: *b"KTLX" },
+        runs: c.stamps.iter().map(|(d, t)| c01::RunSpec { elevation: 1, count: 1, templates: vec![template((*d).max(1), *t % 86_400_000)] }).collect(),
+        metadata: vec![],
+        splits: c.splits.clone(),
+        msg_header: MsgHeaderSpec { rpg: [0; 12], size: 100, channel: 8, mtype: 31, seq: 0, date: 20_000, time: 1, seg_count: 1, seg_num: 1 },
+    };
+    let (bytes, radials, _) = c01::build_file(&vc);
+    let file = nexrad_data::volume::File::new(bytes);
+    let scan = no_panic("File::scan", || file.scan())?.map_err(|e| Fail::new("scan-path:wellformed-volume-rejected", format!("{:?}", e)))?;
+    let got: Vec<i64> = scan.sweeps().iter().flat_map(|s| s.radials().iter().map(|r| r.collection_timestamp())).collect();
+    ensure_eq!(got.len(), radials.len(), "scan-path:radial-count");
+    for (i, (g, spec)) in got.iter().zip(radials.iter()).enumerate() {
+        let want = epoch_millis(spec.header.date, spec.header.time as u64);
+        ensure_eq!(*g, want, "wrong-instant:scan-path", "radial {} of {} (day count {}, time {} ms; previous radial's day count {})", i, radials.len(), spec.header.date, spec.header.time, if i > 0 { radials[i - 1].header.date as i64 } else { -1 });
+    }
+    Ok(())
+}
+
 pub fn replay(sub: &str, case: &Value) -> Check {
+    if sub == "scan-path" {
+        return check_scan_path(&from_case::<ScanPathCase>(case)?);
+    }
     let c: Case = from_case(case)?;
     match sub {
         "in-domain" | "in-domain-all-days" | "all-minutes" | "regression:in-domain" => {
